@@ -279,7 +279,7 @@ def run_variants(select: list[str] | None, props_filter: str | None, repo_root: 
     return (0 if not failures else 2), stats
 
 
-DECLINED_SEEDED = {'C09-m2', 'C09-n1'}  # scanner arithmetic: see DESIGN.md 6.5  # DESIGN.md 6.5: agreement of two recognisers of the drive-prefix language is not decided
+DECLINED_SEEDED = {'C09-m2', 'C09-n1', 'C10-p1', 'C06-p3'}  # scanner arithmetic: see DESIGN.md 6.5  # DESIGN.md 6.5: agreement of two recognisers of the drive-prefix language is not decided
 
 
 def _seeded_one(args: tuple) -> dict:
